@@ -51,6 +51,8 @@ type PipeResult struct {
 	LogGates    int
 	OutGates    int
 	MaxReadsWhileLogPending int
+	LateWrites     int    // writes to the caller's writers that began after the call had returned
+	RawLogAtReturn string // RawLog runs: the log as the caller saw it at the moment of return
 }
 
 // GInfo describes one goroutine of the bubble that is still alive at the end.
@@ -192,18 +194,25 @@ func RunPipe(t *testing.T, sc *Scenario, capture bool, record bool) *PipeResult 
 			f := simio.NewSimFile(s, simio.FileCfg{
 				Name: sc.Name, Data: sc.Src, Script: sc.Reads, Fill: sc.Fill,
 				GateRead: sc.GateRead, GateClose: sc.GateClose, GateName: sc.GateName,
+				CloseErr: sc.CloseErr, StatSize: sc.StatSize,
 			})
-			logw := simio.NewSimWriter(s, simio.OLog, sc.GateLog)
+			logw := simio.NewSimWriter(s, simio.OLog, sc.GateLog && !sc.RawLog)
 			outw := simio.NewSimWriter(s, simio.OOut, sc.GateOut)
+			logw.Raw = sc.RawLog
 			res.File = f
 			res.LogW, res.OutW = logw, outw
 			var returned atomic.Bool
+			logw.Returned, outw.Returned = &returned, &returned
 			go func() {
 				defer func() {
 					if r := recover(); r != nil {
 						res.CallerPanic = fmt.Sprint(r)
 					}
 					returned.Store(true)
+					if sc.RawLog {
+						// what a caller does with the buffer it passed: look at it as soon as the call is back
+						res.RawLogAtReturn = string(logw.RawBuf)
+					}
 				}()
 				opts := optsOf(sc.Opts, outw, logw)
 				switch sc.API {
@@ -274,6 +283,7 @@ func RunPipe(t *testing.T, sc *Scenario, capture bool, record bool) *PipeResult 
 				res.Events = s.Events()
 			}
 			res.FS = f.Stats()
+			res.LateWrites = int(logw.LateWrites.Load() + outw.LateWrites.Load())
 			res.Log = logw.String()
 			res.Out = outw.String()
 			if capture {
